@@ -102,6 +102,8 @@ class Contract:
             if interp.ctx.feasible(est):
                 st.excs.append((exc, est))
         # 3. havoc modified objects, fresh result, assume postconditions
+        facts = []
+        fresh_leaves = []
         post_env = dict(env)
         for m in self.modifies:
             ty = self.params.get(m)
@@ -109,8 +111,8 @@ class Contract:
                 raise Outside(f"modifies {m} without a declared type", node)
             ty = _instantiate_like(ty, env[m])
             nv, wf = ty.fresh(f"{self.qualname}.{m}'")
-            for w in wf:
-                st.assume(w)
+            facts.extend(wf)
+            fresh_leaves.extend(V.leaves_of(nv))
             post_env[m] = nv
         result = None
         if constructing is not None or returns_self:
@@ -121,19 +123,43 @@ class Contract:
             if callable(rty) and not isinstance(rty, T.Type):
                 rty = rty(cst.env)
             result, wf = rty.fresh(f"{self.qualname}.result")
-            for w in wf:
-                st.assume(w)
+            facts.extend(wf)
+            fresh_leaves.extend(V.leaves_of(result))
+        binders = list(getattr(st, "binders", []))
+        if binders:
+            # the call sits under a binder (comprehension / map over a symbolic-length sequence): its result is a
+            # FUNCTION of the bound index, and the postcondition holds for every index
+            if self.modifies:
+                raise Outside("call with side effects inside a comprehension over a symbolic-length sequence", node)
+            subs = []
+            for leaf in fresh_leaves:
+                if is_sym(leaf) and z3.is_const(leaf) and leaf.decl().kind() == z3.Z3_OP_UNINTERPRETED:
+                    fn = z3.Function(V.fresh_name(leaf.decl().name() + "_of"), *([b.sort() for b in binders] + [leaf.sort()]))
+                    subs.append((leaf, fn(*binders)))
+            result = V.rebuild_from(result, iter([z3.substitute(l, *subs) if is_sym(l) else l for l in V.leaves_of(result)])) if result is not None else None
+            self._binder_subs = subs
         pst = State(dict(post_env), st.pc, st.guards, f.mod, f.cls)
         pst.env["__pre__"] = pre_env
         pst.env["result"] = result
         for name, expr in self.lets.items():
             pst.env[name] = cst.env[name]
         labels = self.call_ensures if self.call_ensures is not None else list(self.ensures)
+        n_pc = len(st.pc)
         for lab in labels:
             c = reg.eval_clause(interp, pst, self.ensures[lab])
             if c is False:
                 raise Outside(f"postcondition `{lab}` of {self.qualname} evaluates to False at this call site (contract/engine mismatch)", node)
-            st.assume(c)
+            facts.append(c)
+        if binders:
+            guard = b_and(*st.guards) if st.guards else True
+            for fct in facts:
+                if fct is True:
+                    continue
+                z = z3.substitute(to_z3(fct), *self._binder_subs) if self._binder_subs else to_z3(fct)
+                st.pc.append(z3.ForAll(binders, z3.Implies(to_z3(guard), z)))
+        else:
+            for fct in facts:
+                st.assume(fct)
         # write back modified arguments
         if self.modifies:
             a = f.node.args
@@ -176,6 +202,7 @@ class Registry:
         self.spec_functions = {}
         self.class_files = {}
         self.inlinable = set()
+        self.assumed_methods = {}  # (class name, attribute) -> Native implementation (trusted library behaviour)
         self.current = None
         self.calls_seen = {}
 
